@@ -321,7 +321,7 @@ def runtime_subjects():
             continue
         if not names:
             names = {n.name for n in m.tree.body if isinstance(n, (ast.FunctionDef, ast.ClassDef))
-                     and not n.name.startswith(('_try_', '_parse_', '_raise_error'))}
+                     and not n.name.startswith(emitted_prefixes())}
         sig = '\n'.join(ast.unparse(n) for n in m.tree.body
                         if isinstance(n, (ast.FunctionDef, ast.ClassDef)) and n.name in names)
         if sig in seen:
@@ -582,7 +582,7 @@ def conformance(mod, bad, stats):
         delegated = {id(n.value) for n in ast.walk(fn) if isinstance(n, ast.YieldFrom)}
         for n in ast.walk(fn):
             if isinstance(n, ast.Call) and isinstance(n.func, ast.Name) and n.func.id in funcs \
-                    and n.func.id.startswith('_parse_function_'):
+                    and n.func.id.startswith(helper_prefix()):
                 h = funcs[n.func.id]
                 stats['callsites'] += 1
                 stats['spills'] = stats.get('spills', 0) + 1
@@ -612,7 +612,7 @@ def conformance(mod, bad, stats):
                                       f'(_status, _result, _pos) in {fname}')
     # entry points
     for fname, fn in funcs.items():
-        if fname.startswith('_parse_') and not fname.startswith('_parse_function_'):
+        if fname.startswith('_parse_') and not fname.startswith(helper_prefix()):
             check_entry(fn, fname, mod, bad, funcs, stats)
     for cname, cls in mod.classes.items():
         for m in cls.body:
@@ -715,7 +715,7 @@ def local_shadowing(mod, bad, stats):
     in every later reference of the same body - never the grammar rule of the same name."""
     pre = set(prefix_params(mod.uses_context))
     for fname, fn in functions_top(mod.tree).items():
-        if not fname.startswith(('_try_', '_parse_function_')):
+        if not fname.startswith(('_try_', helper_prefix())):
             continue
         bound = set(positional_params(fn)) - pre
         for n in ast.walk(fn):
@@ -772,7 +772,7 @@ def context_wiring(mod, bad, stats):
     # through a sub-grammar it calls the base definitions (overrides and the sub-grammar's ignore
     # rule are bypassed)
     for n in mod.tree.body:
-        if isinstance(n, ast.FunctionDef) and n.name.startswith(('_try_', '_parse_function_')):
+        if isinstance(n, ast.FunctionDef) and n.name.startswith(('_try_', helper_prefix())):
             stats['ctx_param_functions'] = stats.get('ctx_param_functions', 0) + 1
             params = {a.arg for a in n.args.posonlyargs + n.args.args + n.args.kwonlyargs}
             if '_ctx' not in params and any(isinstance(x, ast.Name) and x.id == '_ctx' for x in ast.walk(n)):
@@ -1313,6 +1313,14 @@ ROUTE_PROPS = [
 ]
 
 
+def emitted_prefixes():
+    """name prefixes of what the generator emits per grammar (as opposed to the runtime templates)"""
+    hp = helper_prefix()
+    if hp not in P.EMITTED_PREFIXES:
+        P.EMITTED_PREFIXES.append(hp)
+    return tuple(P.EMITTED_PREFIXES)
+
+
 def helper_prefix():
     """literal prefix of the names `Expression.functionalize` gives its helper functions (read off the
     f-string in the generator, so that renaming the helpers does not blind the rules)"""
@@ -1572,7 +1580,7 @@ def subgrammar_imports(bad, stats):
         rt = runtime_defs(m.uses_context)
         for node in m.tree.body:
             emitted_part = isinstance(node, (ast.FunctionDef,)) and node.name.startswith(
-                ('_try_', '_parse_', '_raise_error')) or (
+                emitted_prefixes()) or (
                 isinstance(node, ast.ClassDef) and node.name not in rt) or (
                 isinstance(node, ast.Assign) and not any(isinstance(t, ast.Name) and t.id in rt for t in node.targets))
             if not emitted_part:
